@@ -106,7 +106,7 @@ def layout(root, pkg, levels):
             f.write(MODSRC["d"])
 
 
-DOTTED = {"a": "{}.a", "g": "{}.sub.g", "d": "{}.sub.deep.d"}
+DOTTED = {"a": "{}.a", "g": "{}.sub.g", "d": "{}.sub.deep.d", "self": "{}.sub"}
 
 
 def snapshot(root):
@@ -137,7 +137,8 @@ def run_case(args):
     cwd = os.path.join(work, "cwd")
     os.makedirs(cwd)
     emit = o["emit"]
-    argv = ["exmod", "-m", pkg, "-o", out, "--emit", "sqlalchemy" if emit == "sqlalchemy_submodule" else emit]
+    target = pkg if o.get("expose", "top") == "top" else pkg + ".sub"
+    argv = ["exmod", "-m", target, "-o", out, "--emit", "sqlalchemy" if emit == "sqlalchemy_submodule" else emit]
     if emit == "sqlalchemy_submodule":
         argv.append("--emit-sqlalchemy-submodule")
     if o["recursive"]:
@@ -189,7 +190,7 @@ def run_case(args):
             for comp in p.split(os.sep):
                 leaf_paths.setdefault(comp[:-3] if comp.endswith(".py") else comp, []).append(p)
         for m in case["excluded"]:
-            if m in leaf_paths and (m in o["black"] or (o["white"] and m not in o["white"])):
+            if m in leaf_paths:
                 fails.append(("ExcludedSilent", "excluded module {} produced output: {}".format(m, leaf_paths[m][:3])))
         for p in created:
             if p.endswith(".py"):
